@@ -32,6 +32,11 @@ def check(rep, tier, seed):
     n_hist, n_ops = (48, 60) if tier == "quick" else (1600, 120)
     cases = [gen_case(seed, i, ENGINES[i % len(ENGINES)], n_ops) for i in range(n_hist)]
     cases += [tombstone_witness(e) for e in ENGINES[:3]]
+    # reads while writes are in flight (applied by the engine but not yet readable): scheduled executions
+    from .. import sched
+    for i in range(16 if tier == "quick" else 400):
+        r = rng_for(seed, "c03s/%d" % i)
+        cases.append(sched.gen_schedule(r, 4, r.sample(KEY_POOL[:8], 2), ENGINES[i % 3]))
     core.run_cases(cases)
     for c in cases:
         rep.count_case(c)
